@@ -55,6 +55,7 @@ struct Ctx {
     root: PathBuf,
     handles: Vec<Option<Handle>>,
     results: Vec<Option<Res>>,
+    next_hid: Option<usize>,
 }
 
 fn xorshift_bytes(seed: u64, len: usize) -> Vec<u8> {
@@ -198,6 +199,14 @@ impl Ctx {
     }
 
     fn new_handle(&mut self, h: Handle) -> Res {
+        // the scenario names the slot ("hid") so that handle numbers stay stable across a restart
+        if let Some(id) = self.next_hid.take() {
+            while self.handles.len() <= id {
+                self.handles.push(None);
+            }
+            self.handles[id] = Some(h);
+            return Res::Handle(id);
+        }
         self.handles.push(Some(h));
         Res::Handle(self.handles.len() - 1)
     }
@@ -328,6 +337,7 @@ struct Unsupported;
 
 fn run_step(cx: &mut Ctx, step: &Value) -> Result<R, Unsupported> {
     let op = step["op"].as_str().unwrap();
+    cx.next_hid = step.get("hid").and_then(|x| x.as_u64()).map(|x| x as usize);
     let api = step.get("api").and_then(|x| x.as_str()).unwrap_or("sync");
     let cache = cx.cache(step);
     let key = step.get("key").and_then(|k| k.as_str()).unwrap_or("").to_string();
@@ -400,7 +410,7 @@ fn run_step(cx: &mut Ctx, step: &Value) -> Result<R, Unsupported> {
         "hwrite" | "hwrite_all" | "hflush" | "hclose" => {
             let h = step["h"].as_u64().unwrap() as usize;
             let data = if op.starts_with("hwrite") { cx.data(&step["data"]) } else { vec![] };
-            match cx.handles[h].as_mut().expect("live handle") {
+            match cx.handles.get_mut(h).and_then(|x| x.as_mut()).expect("live handle") {
                 Handle::SyncWriter(w) => match op {
                     "hwrite" => iores(w.write(&data), |n| Res::U64(n as u64)),
                     "hwrite_all" => iores(w.write_all(&data), |_| Res::Unit),
@@ -428,7 +438,7 @@ fn run_step(cx: &mut Ctx, step: &Value) -> Result<R, Unsupported> {
         }
         "commit" => {
             let h = step["h"].as_u64().unwrap() as usize;
-            match cx.handles[h].take().expect("live handle") {
+            match cx.handles.get_mut(h).and_then(|x| x.take()).expect("live handle") {
                 Handle::SyncWriter(w) => w.commit().map(Res::Sri),
                 Handle::SyncLinker(l) => l.commit().map(Res::Sri),
                 #[cfg(any(feature = "rt-async-std", feature = "rt-tokio"))]
@@ -440,7 +450,7 @@ fn run_step(cx: &mut Ctx, step: &Value) -> Result<R, Unsupported> {
         }
         "hdrop" => {
             let h = step["h"].as_u64().unwrap() as usize;
-            drop(cx.handles[h].take());
+            drop(cx.handles.get_mut(h).and_then(|x| x.take()));
             Ok(Res::Unit)
         }
         // ---------------------------------------------------------------- reads
@@ -480,7 +490,7 @@ fn run_step(cx: &mut Ctx, step: &Value) -> Result<R, Unsupported> {
             let mut buf = vec![0u8; n];
             let to_end = op == "hread_to_end";
             let mut all = Vec::new();
-            let r: std::io::Result<usize> = match cx.handles[h].as_mut().expect("live handle") {
+            let r: std::io::Result<usize> = match cx.handles.get_mut(h).and_then(|x| x.as_mut()).expect("live handle") {
                 Handle::SyncReader(r) => if to_end { r.read_to_end(&mut all) } else { r.read(&mut buf) },
                 Handle::SyncLinker(r) => if to_end { r.read_to_end(&mut all) } else { r.read(&mut buf) },
                 #[cfg(any(feature = "rt-async-std", feature = "rt-tokio"))]
@@ -493,7 +503,7 @@ fn run_step(cx: &mut Ctx, step: &Value) -> Result<R, Unsupported> {
         }
         "check" => {
             let h = step["h"].as_u64().unwrap() as usize;
-            match cx.handles[h].take().expect("live handle") {
+            match cx.handles.get_mut(h).and_then(|x| x.take()).expect("live handle") {
                 Handle::SyncReader(r) => r.check().map(Res::Algo),
                 #[cfg(any(feature = "rt-async-std", feature = "rt-tokio"))]
                 Handle::Reader(r) => r.check().map(Res::Algo),
@@ -725,7 +735,7 @@ fn main() {
         std::process::exit(3);
     });
     std::panic::set_hook(Box::new(|_| {}));
-    let mut cx = Ctx { root: root.clone(), handles: vec![], results: vec![] };
+    let mut cx = Ctx { root: root.clone(), handles: vec![], results: vec![], next_hid: None };
     let steps = scenario["steps"].as_array().expect("steps");
     let out = std::io::stdout();
     let from = args.iter().position(|a| a == "--from").map(|i| args[i + 1].parse::<usize>().unwrap()).unwrap_or(0);
